@@ -348,6 +348,7 @@ type hdrOpts struct {
 	dotSlash      bool // "./" prefixes
 	dropDirs      float64
 	dirsAfterKids bool
+	typeBits      bool // the mode field holds the full st_mode (S_IFREG / S_IFDIR / … bits included), as older writers emit
 }
 
 func (c *Ctx) filesetToHdrs(f Fileset, o hdrOpts) ([]RawHdr, Fileset) {
@@ -380,7 +381,11 @@ func (c *Ctx) filesetToHdrs(f Fileset, o hdrOpts) ([]RawHdr, Fileset) {
 		if e.Kind == 'd' {
 			name += "/"
 		}
-		hdrs = append(hdrs, RawHdr{Name: name, Typeflag: kindToTarType(e.Kind), Mode: int64(e.Perms), Uid: int(e.Uid), Gid: int(e.Gid), Link: e.Link,
+		mode := int64(e.Perms)
+		if o.typeBits {
+			mode |= map[byte]int64{'f': 0100000, 'd': 040000, 'L': 0120000, 'p': 010000, 'D': 060000, 'c': 020000}[e.Kind]
+		}
+		hdrs = append(hdrs, RawHdr{Name: name, Typeflag: kindToTarType(e.Kind), Mode: mode, Uid: int(e.Uid), Gid: int(e.Gid), Link: e.Link,
 			Maj: e.Maj, Min: e.Min, Sec: e.Sec, Nsec: e.Nsec, Xattrs: e.Xattrs, Content: e.Content})
 	}
 	// a dropped directory is part of the encoded fileset only if some emitted entry lies below it
@@ -477,10 +482,10 @@ func unpackEngine(c *Ctx) {
 		c.H(fmt.Sprintf("entries:%d", (len(fsx)+4)/5*5))
 		// (1) faithful encodings of the same fileset: formats x orders x implicit parents x ./ prefixes
 		refLossless := ""
-		variants := []hdrOpts{{}, {dotSlash: true}, {dirsAfterKids: true}, {dropDirs: 0.5}, {dropDirs: 1, dotSlash: true}}
+		variants := []hdrOpts{{}, {dotSlash: true}, {dirsAfterKids: true}, {dropDirs: 0.5}, {dropDirs: 1, dotSlash: true}, {typeBits: true}}
 		for vi, o := range variants {
 			hdrs, eff := c.filesetToHdrs(fsx, o)
-			format := []string{"-", "pax", "gnu", "-", "pax"}[vi]
+			format := []string{"-", "pax", "gnu", "-", "pax", "-"}[vi]
 			// compression (none / gzip / bzip2 / xz, one or several concatenated members) must not matter either
 			comp := "none"
 			if c.Chance(1, 2) {
